@@ -316,9 +316,13 @@ def run_audit() -> Dict[str, List[str]]:
         allthms += v.get("theorems", [])
     allthms = sorted(set(allthms))
     src = "import SA\n" + "\n".join(f"#print axioms {t}" for t in allthms) + "\n"
-    f = WORK / "Audit.lean"
+    f = WORK / f"Audit_{os.getpid()}.lean"  # per process: concurrent checks must not rewrite a file Lean is reading
     f.write_text(src)
     p = subprocess.run(["lake", "env", "lean", str(f)], cwd=LEAN, capture_output=True, text=True)
+    try:
+        os.replace(f, WORK / "Audit.lean")  # the file named in the evidence (`checker_cmd`)
+    except OSError:
+        pass
     text = p.stdout + p.stderr
     audit: Dict[str, List[str]] = {}
     # "'SA.C01_cells' depends on axioms: [propext, Classical.choice, Quot.sound]"
